@@ -277,7 +277,7 @@ def main():
                     what_ = "solving the same unmodified object again after clearBasis() differs in %s (after re-seeding: %s) under %s" % (
                         d.get("resolve_after_clearBasis"), d.get("resolve_reseeded"), cfg)
                     if tag.startswith("other"):
-                        # judged at the end by their frequency: on the unchanged tree about one re-solve in 20000 differs in configurations
+                        # judged at the end by their frequency: on the unchanged tree about one re-solve in 1500 differs in configurations
                         # without a known cause (known finding, 'rare'); a component that carries state across solves shows up in a large
                         # share of the runs ('frequent')
                         other_diffs.append((tag, what_, rp))
@@ -315,7 +315,7 @@ def main():
         if k < 2:
             ck.sample({"lp": p.text(str(k)), "commands": [c[1] for c in cmds[k]], "results": [res.get(c[0], {}) for c in cmds[k]]})
     ndet = sum(1 for k_ in cmds for c_ in cmds[k_] if c_[1].startswith("DET "))
-    limit = max(1, ndet // 5000)
+    limit = max(1, ndet // 1000)
     ck.cov["resolve_differences_without_known_cause"] = {"count": len(other_diffs), "DET_runs": ndet, "rare_up_to": limit}
     for (tag, what_, rp) in other_diffs:
         ck.violation("resolve-after-clearBasis-differs:%s:%s" % (tag, "rare" if len(other_diffs) <= limit else "frequent"),
